@@ -269,10 +269,25 @@ def recursive_person_team():
     return t
 
 
-def shared_leaf():
+def shared_leaf(direct=True):
     ln = fresh('Leaf')
     leaf = T(ln, O({'id': S, 'n': OPT(N)}), [f'type {ln} = {{ id: string; n?: number }};'])
-    return obj({'a': (arr(leaf), False), 'b': (arr(leaf), False), 'c': (leaf, True)})
+    props = {'a': (arr(leaf), False), 'b': (arr(leaf), False)}
+    if direct:
+        props['c'] = (leaf, True)
+    t = obj(props)
+    t.shared = [ln + ('_renamed' if False else '')]
+    return t
+
+
+def recursive_forest():
+    name = fresh('Node')
+    spec = {'t': 'ref', 'name': name}
+    t = T(f'Array<{name}>', {'t': 'array', 'x': spec}, [f'type {name} = {{ v: number; kids: Array<{name}> }};'])
+    t.defs = {name: O({'v': N, 'kids': {'t': 'array', 'x': spec}})}
+    t.shared = [name]
+    ALL_DEFS.update(t.defs)
+    return t
 
 
 def programs(tier, rng, style=0):
@@ -322,7 +337,7 @@ def programs(tier, rng, style=0):
             obj({'p': (tup([NUMBER, NUMBER]), False), 'q': (tup([NUMBER, NUMBER, NUMBER]), False)}), obj({'p': (tup([STRING, NUMBER]), False), 'q': (tup([NUMBER, STRING]), True)}),
             tup([tup([lit(1), lit('a')]), tup([lit('a'), lit(1)])]), obj({'s': (union(lit('x'), lit('y'), lit('z')), False), 't': (union(lit('z'), lit('y')), True)}),
             obj({'a-b': (STRING, True), 'c d': (NUMBER, False), '1x': (BOOLEAN, True)}), obj({'a.b': (STRING, False)}, index=STRING),
-            recursive_person_team(), shared_leaf(), arr(recursive_tree()), tup([recursive_tree(), recursive_tree()]),
+            recursive_person_team(), shared_leaf(), shared_leaf(direct=False), recursive_forest(), arr(recursive_tree()), tup([recursive_tree(), recursive_tree()]),
             tup([]), tup([STRING], rest=NUMBER), tup([], rest=BOOLEAN), obj({}), obj({}, index=NUMBER), obj({'a': (STRING, False)}, index=union(STRING, NUMBER))]
     return out
 
